@@ -4,7 +4,7 @@ import copy
 from hypothesis import strategies as st
 
 from .. import gen
-from ..spec import to_statechart, HISTORY, COMPOSITE, TRANSITION_OWNERS
+from ..spec import prio_value, to_statechart, HISTORY, COMPOSITE, TRANSITION_OWNERS
 
 PROP = 'C16'
 LEVEL = 'exploration'
@@ -50,7 +50,8 @@ class Model:
         self.trs = []   # list of dicts (multiset)
         for t in spec['transitions']:
             self.trs.append({'source': t['source'], 'target': t.get('target'),
-                             'event': t.get('event'), 'action': 'a%d' % t['id']})
+                             'event': t.get('event'), 'action': 'a%d' % t['id'],
+                             'priority': prio_value(t.get('priority'))})
         self.fresh = 0
 
     def children(self, n):
@@ -72,8 +73,8 @@ class Model:
     def observe(self):
         return {'states': {n: dict(v, children=self.children(n)) for n, v in self.states.items()},
                 'root': self.root(),
-                'transitions': sorted(repr([t['source'], t['target'], t['event'], t['action']])
-                                      for t in self.trs)}
+                'transitions': sorted(repr([t['source'], t['target'], t['event'], t['action'],
+                                            t['priority']]) for t in self.trs)}
 
 
 def observe(sc):
@@ -90,7 +91,7 @@ def observe(sc):
         if o.name != n:
             states[n]['name_attr'] = o.name
     return {'states': states, 'root': sc.root,
-            'transitions': sorted(repr([t.source, t.target, t.event, t.action])
+            'transitions': sorted(repr([t.source, t.target, t.event, t.action, t.priority])
                                   for t in sc.transitions)}
 
 
@@ -349,14 +350,19 @@ def plan(m, sc, op):
         act = 'x%d' % m.fresh
         ev = pick([None, 'e0', 'e1'], d)
         if valid and m.trs and d % 4 == 0:
-            # an equal duplicate of a registered transition (Transition.__eq__ is by value)
+            # an equal duplicate of a registered transition (Transition.__eq__ is by value), or
+            # a look-alike that differs in priority only
             x = dict(pick(m.trs, a))
+            if d % 8 == 4:
+                x['priority'] = x['priority'] + (1 if c % 2 else -1)
 
             def eff_dup():
                 m.trs.append(dict(x))
-            return ('add_transition(duplicate of %r -> %r)' % (x['source'], x['target']),
+            return ('add_transition(duplicate of %r -> %r, priority %r)' % (
+                x['source'], x['target'], x['priority']),
                     lambda: sc.add_transition(sm.Transition(x['source'], x['target'],
-                                                            event=x['event'], action=x['action'])),
+                                                            event=x['event'], action=x['action'],
+                                                            priority=x['priority'])),
                     'ok', eff_dup)
         if valid:
             if not owners:
@@ -364,7 +370,8 @@ def plan(m, sc, op):
             s = pick(owners, a)
             t = pick([None] + names, b)
             def eff():
-                m.trs.append({'source': s, 'target': t, 'event': ev, 'action': act})
+                m.trs.append({'source': s, 'target': t, 'event': ev, 'action': act,
+                              'priority': 0})
             return ('add_transition(%r -> %r)' % (s, t),
                     lambda: sc.add_transition(sm.Transition(s, t, event=ev, action=act)), 'ok', eff)
         mode = pick(['unknown-source', 'non-owner', 'unknown-target'], c)
@@ -394,10 +401,10 @@ def plan(m, sc, op):
         if not regs:
             return None
         t = pick(regs, a)
-        key = (t.source, t.target, t.event, t.action)
+        key = (t.source, t.target, t.event, t.action, t.priority)
         def eff():
             for i, x in enumerate(m.trs):
-                if (x['source'], x['target'], x['event'], x['action']) == key:
+                if (x['source'], x['target'], x['event'], x['action'], x['priority']) == key:
                     del m.trs[i]
                     return
             raise AssertionError('model lacks transition %r' % (key,))
@@ -439,7 +446,7 @@ def plan(m, sc, op):
         if not regs or not owners:
             return None
         t = pick(regs, a)
-        key = (t.source, t.target, t.event, t.action)
+        key = (t.source, t.target, t.event, t.action, t.priority)
         mode = pick(['source', 'target', 'both', 'to-internal'], b)
         ns = pick(owners, c)
         nt = pick(names, d)
@@ -452,7 +459,7 @@ def plan(m, sc, op):
             kw['new_target'] = None
         def eff():
             for x in m.trs:
-                if (x['source'], x['target'], x['event'], x['action']) == key:
+                if (x['source'], x['target'], x['event'], x['action'], x['priority']) == key:
                     if 'new_source' in kw:
                         x['source'] = kw['new_source']
                     if 'new_target' in kw:
